@@ -47,7 +47,7 @@ def main (args : List String) : IO UInt32 := do
   | ["C15"] => loop stdin stdout C15.step; return 0
   | ["C04"] => loop stdin stdout C04.step; return 0
   | ["C03"] => loopState stdin stdout C03.step C03.DState.init; return 0
-  | ["C02"] => loopState stdin stdout C02.step ([] : C02.DState); return 0
+  | ["C02"] => loopState stdin stdout C02.step ({} : C02.DState); return 0
   | ["C11"] => loopState stdin stdout C11.step C11.init; return 0
   | ["C12"] => loopState stdin stdout C12.step C12.init; return 0
   | ["C13"] => loopState stdin stdout C12.step C12.init; return 0
